@@ -177,13 +177,19 @@ func (f *FragmentBuffer) Pop() (content []byte, epoch uint16) {
 		return nil, 0
 	}
 
-	firstHeader := frags.fragmentByOffset[0].handshakeHeader
+	first, ok := frags.fragmentByOffset[0]
+	if !ok {
+		// Only possible for a zero-length message whose fragments all claim a
+		// non-zero offset: malformed, never complete.
+		return nil, 0
+	}
+	firstHeader := first.handshakeHeader
 	firstHeader.FragmentOffset = 0
 	firstHeader.FragmentLength = firstHeader.Length
 
 	rawHeader, _ := firstHeader.Marshal()
 
-	messageEpoch := frags.fragmentByOffset[0].recordLayerHeader.Epoch
+	messageEpoch := first.recordLayerHeader.Epoch
 
 	f.totalBufferSize -= int(frags.fragmentsLength)
 	f.totalFragmentCount -= len(frags.fragmentByOffset)
